@@ -72,6 +72,10 @@ func c11Server(rec *script.Rec, cfg string) (*harness.One, error) {
 	switch cfg {
 	case "empty":
 		opts = append(opts, wire.TLSConfig(&tls.Config{}))
+	case "empty-slice":
+		opts = append(opts, wire.TLSConfig(&tls.Config{Certificates: []tls.Certificate{}}))
+	case "empty-slice-with-capacity":
+		opts = append(opts, wire.TLSConfig(&tls.Config{Certificates: make([]tls.Certificate, 0, 4)}))
 	case "certs":
 		opts = append(opts, wire.TLSConfig(&tls.Config{Certificates: []tls.Certificate{c11Certificate()}}))
 	}
@@ -183,10 +187,28 @@ func c11Run(c c11Case) explore.Result {
 	out, st := one.Step(first)
 	if !certs {
 		res.Outcome = "refused"
+		if c.Behave == "ssl+stuffed" && string(out) == "N" {
+			res.Fail("pipelined-plaintext-dropped", fmt.Sprintf("%s: the startup packet and query that arrived in the same segment as the refused SSLRequest were never answered (the connection must continue in plaintext with them)", c))
+			return res
+		}
 		if string(out) != "N" {
 			if c.Behave == "ssl+stuffed" && len(out) > 0 && out[0] == 'N' {
-				// without TLS the connection legitimately continues in plaintext: the stuffed bytes are an ordinary pipelined startup
+				// without TLS the connection legitimately continues in plaintext: the stuffed bytes are an ordinary
+				// pipelined startup + query and must be served exactly as if no SSLRequest had preceded them
 				res.Outcome = "refused-pipelined"
+				ref := &script.Rec{}
+				r1, err := c11Server(ref, c.Cfg)
+				if err != nil {
+					res.Engine = err.Error()
+					return res
+				}
+				defer r1.Stop()
+				want, _ := r1.Step(c11Stuffed)
+				got, _ := harness.CanonTranscript(out[1:])
+				wantT, _ := harness.CanonTranscript(want)
+				if !sameStrings(got, wantT) || !sameStrings(cbSummary(rec.Evs), cbSummary(ref.Evs)) {
+					res.Fail("plaintext-after-refusal-differs", fmt.Sprintf("%s: SSLRequest + startup + query in one segment: after N the server answered\n  %v (callbacks %v)\nbut the same bytes without the SSLRequest give\n  %v (callbacks %v)", c, got, cbSummary(rec.Evs), wantT, cbSummary(ref.Evs)))
+				}
 				return res
 			}
 			res.Fail("ssl-refusal", fmt.Sprintf("%s: SSLRequest without certificates answered % x, expected the single byte N", c, out))
@@ -354,7 +376,7 @@ func init() {
 		ID:        "C11",
 		Level:     "exploration",
 		Technique: "exhaustive enumeration of (server TLS configuration x client behaviour around the SSLRequest x session history) with a real crypto/tls client over a tapped in-memory transport; raw bytes judged structurally (TLS record framing), decrypted stream differentially against the plaintext equivalent",
-		Rule:      "TLS configuration {none, empty, with certificate} x client behaviour {SSLRequest then handshake, SSLRequest with startup+Query stuffed into the same segment, SSLRequest with surplus body, plaintext instead of a handshake, second SSLRequest, CancelRequest after the negotiation} x all session histories of length <= 2 over {Query ok, Query error, Parse+Bind+Execute+Sync, COPY-in, oversized, Terminate}; non-trivial = cases that negotiate (refused or upgraded)",
+		Rule:      "TLS configuration {none, empty config, empty non-nil certificate slice (with / without capacity), with certificate} x client behaviour {SSLRequest then handshake, SSLRequest with startup+Query stuffed into the same segment, SSLRequest with surplus body, plaintext instead of a handshake, second SSLRequest, CancelRequest after the negotiation} x all session histories of length <= 2 over {Query ok, Query error, Parse+Bind+Execute+Sync, COPY-in, oversized, Terminate}; non-trivial = cases that negotiate (refused or upgraded)",
 		Assumptions: []string{"cryptographic strength is not judged: only record framing on the wire and the decrypted plaintext", "behaviour of a repeated SSLRequest is only required to leak nothing and to run no callback", "crypto/tls client and server goroutines run freely; the verdict depends on byte structure and transcripts only"},
 		Enumerate:   c11Enumerate,
 		Bounds:      func(tier string) map[string]any { return map[string]any{"session_depth": c11Depth(tier)} },
@@ -371,7 +393,7 @@ func c11Depth(tier string) int {
 
 func c11Enumerate(tier string, emit explore.Emit) {
 	letters := c11Letters()
-	for _, cfg := range []string{"nil", "empty", "certs"} {
+	for _, cfg := range []string{"nil", "empty", "empty-slice", "empty-slice-with-capacity", "certs"} {
 		for _, b := range []string{"ssl-handshake", "ssl+stuffed", "ssl-surplus-body"} {
 			cfg, b := cfg, b
 			forShapes(len(letters), c11Depth(tier), func(sh []int) {
